@@ -196,6 +196,18 @@ Definition check (c : sexp) : sexp :=
       match Sexp.field "skipped" l with
       | Some _ => v_ok ["skipped"]
       | None =>
+      match Sexp.field "stackprobe" l with
+      | Some pl =>
+          (* a flat document validated in a child process with a lowered stack limit: it must come
+             back, whatever its width (the scanner's loop and the parser's loops over siblings use
+             constant stack; only nesting costs stack, and nesting is limited) *)
+          match field1 "family" l, num "n" l, field1 "result" pl with
+          | Some (SSym fam), Some n, Some r =>
+              if is_sym "ok" r then v_ok ["stack-probe"; fam; "nontrivial"]
+              else v_oracle_fail "stack-grows-with-flat-width" [SSym fam; SZ n]
+          | _, _, _ => v_bad "decode-stackprobe"
+          end
+      | None =>
           match dec_case l with
           | None => v_bad "decode"
           | Some cc =>
@@ -213,6 +225,7 @@ Definition check (c : sexp) : sexp :=
                     end
                 end
           end
+      end
       end
   | None => v_bad "shape"
   end.
